@@ -937,7 +937,9 @@ class ExternalTensor(TensorBase, _protocols.TensorProtocol):  # pylint: disable=
         if self.size == 0:
             # Nothing is mapped for a zero-size tensor (see _load); it has no bytes
             return b""
-        if self.raw is None:
+        if self.raw is None or self._array is None:
+            # _array is None with a mapping present when an earlier _load() failed its size
+            # check after mapping the file: load (and fail) again instead of slicing the mapping
             self._load()
         assert self.raw is not None
         offset = self._offset or 0
